@@ -118,6 +118,16 @@ def source_dictionary(cap=40):
     lk = {"langs": sorted({w.lower() for w in ws if re.fullmatch(r"[A-Za-z]{2,3}|[A-Za-z]{5,8}", w) and w.lower() != "und"}),
           "scripts": sorted({w[0].upper() + w[1:].lower() for w in ws if re.fullmatch(r"[A-Za-z]{4}", w)}),
           "regions": sorted({w.upper() for w in ws if re.fullmatch(r"[A-Za-z]{2}|[0-9]{3}", w)})}
+    # whole multi-subtag literals of the sources (a table of special tags matched as a whole): seeds for MC_Meta
+    tags = set()
+    for f in files:
+        src = re.sub(r"//[^\n]*", "", open(f, errors="replace").read())
+        for m in re.finditer(r'b?"([A-Za-z0-9]{1,8}(?:[-_][A-Za-z0-9]{1,8}){1,7})"', src):
+            tags.add(m.group(1))
+    tags = sorted(tags)[:60]
+    path3 = os.path.join(d, "dict_tags.json")
+    json.dump([[ord(ch) for ch in t] for t in tags] or [[101, 110, 45, 85, 83]], open(path3, "w"))
+    os.environ["VERIF_DICT_TAGS"] = path3
     path2 = os.path.join(d, "dict_likely.json")
     json.dump(lk, open(path2, "w"))
     os.environ["VERIF_DICT_LIKELY"] = path2
